@@ -32,6 +32,14 @@ CHECKS.update({
    text='Every reference built from {no scheme, scheme} x {no authority, authority} x all dot/empty/colon path-token sequences up to length n x query x fragment is normalised, resolved against each of ~140 absolute bases and normalised again, and compared (text and uriEqualsUri) with resolving the untouched reference; scheme/authority presence and the path kind must survive normalisation. One genuine defect is an open known finding (relative path normalised to the empty reference; pinned by the repository tests).',
    ref='DESIGN.md section 3, C09', note=TRUST),
 })
+CHECKS.update({
+ 'C10': dict(cat='exploration', tech='bounded-exhaustive enumeration of (source, base, mode, manager, char type); round trip through the reference resolver; bounded witness search for the omission clause',
+   text='The full product of sources and bases built from 2 schemes x 10 authorities x all path-token sequences up to length n x queries x fragments is run through uriRemoveBaseUri in both modes; the produced reference is read back from its text, resolved against the base by the reference RFC 3986 resolver and must be equivalent to the source; a bounded witness search decides when scheme and authority have to be omitted; error codes, read-only arguments and ledger balance are checked on every call.',
+   ref='DESIGN.md section 3, C10', note=TRUST + '; rootless sources in domain-root mode: keeping the scheme is accepted (the statement\'s clauses collide there)'),
+ 'C11': dict(cat='model_checking', tech='explicit enumeration of all ordered pairs (and triples) over two finite sets of URI objects: a one-difference family judged by component identity, and library-made objects judged by text identity',
+   text='All ordered pairs of a family that contains every single-component difference (incl. IPv4/IPv6 by value, IPvFuture, absent vs empty, absolute vs rootless) are compared in both character types against component-wise identity of the reference decomposition; all pairs of objects made by parse/normalise/makeOwner/resolve/shorten are compared against identity of the recomposed text; symmetry, reflexivity, transitivity on all triples of a subset, NULL arguments; arguments are write-protected.',
+   ref='DESIGN.md section 3, C11', note=TRUST),
+})
 NOT_YET = {}
 def main():
     props = [json.loads(l) for l in open(os.path.join(VERIF, 'properties.jsonl'))]
